@@ -8,5 +8,10 @@ open Irismod.Props.Tie Irismod.Gen.PureFarm Irismod.Sdk
 #print axioms shareOf_eq_translation
 #print axioms CaclRewards_pending_and_locked
 #print axioms CaclRewards_debt_eq
+#print axioms AdjustPool_heights_eq_model
+#print axioms AdjustPool_interval_step_eq_model
+#print axioms AdjustPool_topup_eq_model
 -- one release of 7 per block over 3 blocks with 2 locked: rps grows by 10.5, 21 leave the budget; the share of 3 locked
 #eval s!"nonvacuous {releaseIteration 7 100 ⟨0⟩ 3 2 == some (⟨10500000000000000000⟩, 79) && releaseIteration 7 20 ⟨0⟩ 3 2 == none && CaclRewards_pendingRewardTotal_1 ⟨10500000000000000000⟩ 3 == some 31}"
+-- AdjustPool: 90 remaining at 4 per block last 22 blocks; a zero rate panics; end height 100 → 50+22
+#eval s!"nonvacuous-adjust {AdjustPool_inteval_1 90 4 == some 22 && AdjustPool_inteval_1 90 0 == none && AdjustPool_expiredHeight_1 50 22 == some 72 && AdjustPool_remainingHeight_1 100 50 == some 50}"
